@@ -137,6 +137,15 @@ static int p_cmptrunc(void)     /* D26: uniq keeps records whose low bounds are 
     n = hostlist_count(h);
     return n == 7 ? 1 : n == 1 ? 0 : 2;
 }
+static int p_deleteall(void)    /* D1: hostlist_delete erases every occurrence of a listed name */
+{
+    hostlist_t h = hostlist_create("foo[1-3],foo[2-4]");
+    int n;
+    if (!h) return 2;
+    hostlist_delete(h, "foo[2-3]");
+    n = hostlist_count(h);
+    return n == 2 ? 1 : n == 4 ? 0 : 2;
+}
 /* run a probe in a child: a crash / hang of the child means "recorded defect" (0) */
 static int probe(int (*f)(void))
 {
@@ -187,5 +196,6 @@ int main(void)
     bad |= lean_bool("FIX_D19_REMOVEDEPTH", probe(p_removedepth));
     bad |= lean_bool("FIX_D20_POPITER", probe(p_popiter));
     bad |= lean_bool("FIX_D26_CMPTRUNC", probe(p_cmptrunc));
+    bad |= lean_bool("FIX_D1_DELETEALL", probe(p_deleteall));
     return bad;
 }
